@@ -773,6 +773,8 @@ def run(chk: common.Check) -> None:
         for pol in ({'kind': 'all', 'command': 'next'}, {'kind': 'all', 'command': 'continue'}):
             tspecs.append({'source': src, 'policy': pol, 'trace_threads': True, 'trace_modules': False, 'kind': 'every-trace-ends', 'timeout': 40,
                            'want_reference': False, 'want_recorder': False})
+    td_lines: list = []
+    td_spans: list = []
     for r in _trace.run_specs(tspecs, chunk=4):
         sp = r['spec']
         chk.cov.case(('every-trace-ends', sp['source'], repr(sp['policy'])))
@@ -791,6 +793,23 @@ def run(chk: common.Check) -> None:
             m.append(f"the run raised {r['traced']['error']}")
         if m:
             oracle_fail.append((('trace-pipeline', sp['source'], sp['policy']['command'], False), [], m))
+        # model D1t: the same stream with the exit of the plugin context placed as late as possible must be accepted — every other trace has
+        # ended by then, nothing but the end of the last trace follows, nothing starts afterwards
+        enc = _trace.encode(evs, teardown=True)
+        td_spans.append((sp, len(td_lines), len(enc)))
+        td_lines += enc
+    td_rejected = []
+    td_err = None
+    try:
+        mo = common.model_batch('trace', td_lines)
+        for sp, a0, n0 in td_spans:
+            seg = mo[a0:a0 + n0]
+            bad = [k for k, x in enumerate(seg) if x.startswith('reject') or x == 'bad-op']
+            if bad:
+                td_rejected.append((sp, td_lines[a0:a0 + n0][:bad[0] + 1][-8:], seg[bad[0]]))
+        chk.cov.count('where', 'teardown-model-streams', len(td_spans))
+    except Exception as e:  # noqa
+        td_err = f'{type(e).__name__}: {e}'
     chk.cov.extra['preemption_points_reached'] = nreached
     chk.cov.extra['monitor_bytecode_offsets'] = len(mon_offs)
     chk.cov.extra['register_bytecode_offsets'] = len(reg_offs)
@@ -809,9 +828,19 @@ def run(chk: common.Check) -> None:
         chk.cov.disagreements_checked = len(rejected)
         cfg, lines, k = min(rejected, key=lambda r: len(r[1]))
         broken.append(f'correspondence I broken: {len(rejected)} observed traces are not accepted by the model; shortest: {cfg} rejected at {lines[k]!r}')
+    if td_err:
+        broken.append(f'model driver unusable (teardown streams): {td_err}')
+    if td_rejected:
+        chk.cov.disagreements_checked = (chk.cov.disagreements_checked or 0) + len(td_rejected)
+        sp, ctx, why = min(td_rejected, key=lambda r: len(r[0]['source']))
+        broken.append(f'correspondence D1t broken: {len(td_rejected)} streams of completed runs are not accepted by the teardown model ({why}); e.g. … {ctx[-4:]} '
+                      f'for the program {sp["source"][:200]!r}, policy {sp["policy"]}')
     if broken and not oracle_fail:
         d = None
         if rejected:
             cfg, lines, k = min(rejected, key=lambda r: len(r[1]))
             d = {'case': cfg, 'observed_labels': lines, 'rejected_at': k}
+        elif td_rejected:
+            sp, ctx, why = min(td_rejected, key=lambda r: len(r[0]['source']))
+            d = {'spec': sp, 'last_lines': ctx, 'reply': why}
         chk.violation('C18: ' + ' | '.join(broken[:3]), {'no_longer_checks': broken, 'shortest_rejected_trace': d}, no_input=True)
